@@ -141,6 +141,14 @@ Theorem java_prune_keeps_root_side : forall droppable rl found acc,
 Proof. exact prune_root_first_prefix. Qed.
 Print Assumptions java_prune_keeps_root_side.
 
+(* memory map: a line that parses as a mapping IS a mapping, whatever characters its path contains ('=' included);
+   only a line that is not a mapping can be an attr=value assignment *)
+Theorem mapping_line_wins_over_assignment : forall l r m ms,
+  parse_mapping_entry (remove_logging_info l) = Ok (Some m) -> parse_proc_maps r = Ok ms ->
+  parse_proc_maps (l :: r) = Ok (m :: ms).
+Proof. exact mapping_line_wins_lemma. Qed.
+Print Assumptions mapping_line_wins_over_assignment.
+
 (* Full statements of which the theorem above is the proved part (whole documents, every format);
    the remaining distance is covered on every run by the correspondence check: the parser model,
    the real parser and convert_* are compared on every generated document. *)
